@@ -34,6 +34,7 @@ def run_case(plan_factory, requests=(), decision="resume", *, fail_call=None, fa
         obs.devices = devices
         obs.plan_end = None
 
+        obs.responses = []  # (message, response sent into the plan at its yield, number of messages executed so far)
         obs.thrown = []  # (message at whose yield an exception was thrown into the plan, exception, index in msgs)
 
         def recorder(gen):
@@ -62,6 +63,7 @@ def run_case(plan_factory, requests=(), decision="resume", *, fail_call=None, fa
                         obs.thrown.append((m, e, len(lab.msgs)))
                         m = gen.throw(e)
                         continue
+                    obs.responses.append((m, resp, len(lab.msgs)))
                     m = gen.send(resp)
             except StopIteration as s:
                 return s.value
